@@ -20,6 +20,20 @@ from .unit import parse_sidecar, assemble, SidecarError
 from . import verus_backend as VB
 
 ROOT = os.path.dirname(os.path.dirname(os.path.abspath(__file__)))
+
+
+def evidence_dir():
+    """evidence/<id>.json is the record of the check on /repo.  A run against a scratch copy (VERIF_REPO=<dir>, used for
+    the deliberate property-breaking experiments of DESIGN.md 9) must never overwrite that record: it writes to
+    evidence-scratch/ (git-ignored) unless VERIF_EVIDENCE_DIR says otherwise."""
+    d = os.environ.get('VERIF_EVIDENCE_DIR')
+    if not d:
+        from .unit import REPO
+        d = os.path.join(ROOT, 'evidence' if os.path.realpath(REPO) == '/repo' else 'evidence-scratch')
+    os.makedirs(d, exist_ok=True)
+    return d
+
+
 SCAN = re.compile(r'\b(assume\s*\(|admit\s*\(|external_body|assume_specification|external_type_specification|uninterp|unsafe\b|'
                   r'kani::assume|kani::stub\b|verifier::truncate|external_fn_specification|verifier::external\b|exec_allows_no_decreases_clause)')
 
@@ -336,8 +350,8 @@ def _run(prop, units, tier, seed, work, t0):
         'wall_s': round(wall, 2),
         'violations': len(seen),
     }
-    os.makedirs(os.path.join(ROOT, 'evidence'), exist_ok=True)
-    with open(os.path.join(ROOT, 'evidence', prop + '.json'), 'w') as fh:
+    _check_evidence_record(ev, rc, undecided_units)
+    with open(os.path.join(evidence_dir(), prop + '.json'), 'w') as fh:
         json.dump(ev, fh, indent=1)
     if rc == 0 and undecided_units:
         for r in undecided_units:
@@ -351,14 +365,23 @@ def _run(prop, units, tier, seed, work, t0):
     return rc
 
 
+def _check_evidence_record(ev, rc, undecided_units):
+    """a quiet run (exit 0) must leave a record that is valid for the proof level: non-zero obligation count (vacuity guard),
+    every obligation discharged, a checker command.  Anything else on a quiet run is a machinery error -> exit 2."""
+    if rc != 0 or undecided_units:
+        return
+    c = ev['coverage']
+    if ev['level'] != 'proof' or c['obligations'] < 1 or c['discharged'] != c['obligations'] or not c['checker_cmd'].strip() or not c['samples']:
+        raise Undecided('evidence record of a quiet run is not a valid proof-level record (obligations=%d discharged=%d)' % (c['obligations'], c['discharged']))
+
+
 def _write_min_evidence(prop, tier, seed, wall, fv):
     ev = {'property_id': prop, 'tier': tier, 'seed': seed, 'level': 'other',
           'coverage': {'explanation': 'the deductive run was undecided on this tree; a bounded native search on the extracted function found a '
                                       'concrete contract violation, which is reported. Nothing is claimed as proved by this run.',
                        'failed_obligations': [{'obligation': fv.failure.obligation, 'message': fv.failure.message}]},
           'assumptions': [], 'wall_s': round(wall, 2), 'violations': 1}
-    os.makedirs(os.path.join(ROOT, 'evidence'), exist_ok=True)
-    json.dump(ev, open(os.path.join(ROOT, 'evidence', prop + '.json'), 'w'), indent=1)
+    json.dump(ev, open(os.path.join(evidence_dir(), prop + '.json'), 'w'), indent=1)
 
 
 def _match_known(known, prop, f):
